@@ -1,0 +1,458 @@
+//go:build verif
+
+package verifhook
+
+import (
+	"crypto/sha1"
+	"encoding/hex"
+	"encoding/json"
+	"fmt"
+	"io"
+	"os"
+	"strconv"
+	"strings"
+	"syscall"
+)
+
+// Plan is the fault plan of one simulated run (JSON file named by
+// YQ_VERIF_PLAN). Execution is a pure function of the plan and the code:
+// nothing here draws random numbers or reads a clock.
+type Plan struct {
+	Trace    string       `json:"trace"`     // trace file (appended)
+	Watch    []string     `json:"watch"`     // files snapshotted at step / write events
+	Budget   int64        `json:"budget"`    // max hook events (yields included); 0 = unlimited
+	RlimitAS uint64       `json:"rlimit_as"` // address space limit in bytes; 0 = none
+	Steps    []StepFault  `json:"steps"`
+	Readers  []ReaderPlan `json:"readers"`
+	Writers  []WriterPlan `json:"writers"`
+}
+
+// StepFault makes occurrence Occ (1-based) of Site fail or kill.
+type StepFault struct {
+	Site   string `json:"site"`
+	Occ    int    `json:"occ"`
+	Action string `json:"action"` // "error" | "kill" | "closefault"
+	Errno  string `json:"errno"`
+	Keep   int64  `json:"keep"` // closefault: bytes of the file that survive
+}
+
+// ReaderPlan shapes the delivery of one input stream.
+type ReaderPlan struct {
+	Stream      string `json:"stream"` // "input" | "load" | "fm"
+	Name        string `json:"name"`   // file name as yq sees it ("" = any)
+	Occ         int    `json:"occ"`    // n-th opening of that (stream,name); 0 = every
+	Chunks      []int  `json:"chunks"` // cyclic schedule of max bytes per Read; empty = as asked
+	ErrAt       int64  `json:"err_at"` // byte offset at which Read fails; <0 = never
+	Errno       string `json:"errno"`
+	EOFWithData bool   `json:"eof_with_data"` // last data chunk is returned together with io.EOF
+}
+
+// WriterPlan shapes one output stream.
+type WriterPlan struct {
+	Stream  string `json:"stream"`  // "out"
+	FailAt  int64  `json:"fail_at"` // first byte offset that cannot be written; <0 = never
+	Errno   string `json:"errno"`
+	KillAt  int64  `json:"kill_at"` // the process is killed once this many bytes were written; <0 = never
+	MaxPart int    `json:"max_part"`
+}
+
+const (
+	exitBudget = 97
+	exitPoll   = 98
+	exitPlan   = 99
+	pollLimit  = 10000
+)
+
+var errnos = map[string]syscall.Errno{
+	"EIO": syscall.EIO, "ENOSPC": syscall.ENOSPC, "EACCES": syscall.EACCES, "EPERM": syscall.EPERM,
+	"EMFILE": syscall.EMFILE, "ENOENT": syscall.ENOENT, "EROFS": syscall.EROFS, "EDQUOT": syscall.EDQUOT,
+	"EBUSY": syscall.EBUSY, "EINTR": syscall.EINTR, "ENOMEM": syscall.ENOMEM, "EISDIR": syscall.EISDIR,
+	"EEXIST": syscall.EEXIST, "ENFILE": syscall.ENFILE,
+}
+
+func errnoOf(s string) syscall.Errno {
+	if e, ok := errnos[s]; ok {
+		return e
+	}
+	return syscall.EIO
+}
+
+type planController struct {
+	plan    Plan
+	fd      int
+	buf     []byte
+	seq     int64
+	yields  int64
+	events  int64
+	occ     map[string]int
+	openOcc map[string]int
+}
+
+func planFail(msg string) {
+	os.Stderr.WriteString("verifhook: " + msg + "\n")
+	os.Exit(exitPlan)
+}
+
+func newPlanController(path string) *planController {
+	data, err := os.ReadFile(path)
+	if err != nil {
+		planFail(err.Error())
+	}
+	c := &planController{fd: -1, occ: map[string]int{}, openOcc: map[string]int{}}
+	if err := json.Unmarshal(data, &c.plan); err != nil {
+		planFail(err.Error())
+	}
+	if t := os.Getenv("YQ_VERIF_TRACE"); t != "" {
+		c.plan.Trace = t
+	}
+	if c.plan.Trace != "" {
+		fd, err := syscall.Open(c.plan.Trace, syscall.O_WRONLY|syscall.O_APPEND|syscall.O_CREAT|syscall.O_CLOEXEC, 0600)
+		if err != nil {
+			planFail(err.Error())
+		}
+		c.fd = fd
+	}
+	if c.plan.RlimitAS > 0 {
+		lim := syscall.Rlimit{Cur: c.plan.RlimitAS, Max: c.plan.RlimitAS}
+		_ = syscall.Setrlimit(syscall.RLIMIT_AS, &lim)
+	}
+	return c
+}
+
+// --- trace -----------------------------------------------------------------
+
+func (c *planController) flush() {
+	if c.fd >= 0 && len(c.buf) > 0 {
+		b := c.buf
+		for len(b) > 0 {
+			n, err := syscall.Write(c.fd, b)
+			if err != nil || n <= 0 {
+				break
+			}
+			b = b[n:]
+		}
+	}
+	c.buf = c.buf[:0]
+}
+
+// emit appends one trace line: seq \t yields \t kind \t site \t occ \t decision \t info \t snapshot
+func (c *planController) emit(kind, site string, occ int, decision, info string, snap, flush bool) {
+	c.seq++
+	c.events++
+	if c.fd >= 0 {
+		c.buf = strconv.AppendInt(c.buf, c.seq, 10)
+		c.buf = append(c.buf, '\t')
+		c.buf = strconv.AppendInt(c.buf, c.yields, 10)
+		c.buf = append(c.buf, '\t')
+		c.buf = append(c.buf, kind...)
+		c.buf = append(c.buf, '\t')
+		c.buf = append(c.buf, site...)
+		c.buf = append(c.buf, '\t')
+		c.buf = strconv.AppendInt(c.buf, int64(occ), 10)
+		c.buf = append(c.buf, '\t')
+		c.buf = append(c.buf, decision...)
+		c.buf = append(c.buf, '\t')
+		c.buf = append(c.buf, info...)
+		c.buf = append(c.buf, '\t')
+		if snap {
+			c.buf = append(c.buf, c.snapshot()...)
+		}
+		c.buf = append(c.buf, '\n')
+		if flush || len(c.buf) > 1<<15 {
+			c.flush()
+		}
+	}
+	c.checkBudget()
+}
+
+func (c *planController) checkBudget() {
+	if c.plan.Budget > 0 && c.events+c.yields > c.plan.Budget {
+		c.seq++
+		c.buf = append(c.buf, fmt.Sprintf("%d\t%d\tBUDGET\t\t0\texit\t\t\n", c.seq, c.yields)...)
+		c.flush()
+		os.Exit(exitBudget)
+	}
+}
+
+func (c *planController) snapshot() string {
+	if len(c.plan.Watch) == 0 {
+		return ""
+	}
+	parts := make([]string, 0, len(c.plan.Watch))
+	for _, w := range c.plan.Watch {
+		parts = append(parts, SnapshotFile(w))
+	}
+	return strings.Join(parts, ",")
+}
+
+// SnapshotFile renders mode and content hash of a file ("absent" if missing).
+func SnapshotFile(path string) string {
+	st, err := os.Lstat(path)
+	if err != nil {
+		return "absent"
+	}
+	if !st.Mode().IsRegular() {
+		return fmt.Sprintf("%o:notregular", uint32(st.Mode()))
+	}
+	data, err := os.ReadFile(path)
+	if err != nil {
+		return fmt.Sprintf("%04o:unreadable", modeBits(st.Mode()))
+	}
+	sum := sha1.Sum(data)
+	return fmt.Sprintf("%04o:%d:%s", modeBits(st.Mode()), len(data), hex.EncodeToString(sum[:8]))
+}
+
+func modeBits(m os.FileMode) uint32 {
+	b := uint32(m.Perm())
+	if m&os.ModeSetuid != 0 {
+		b |= 04000
+	}
+	if m&os.ModeSetgid != 0 {
+		b |= 02000
+	}
+	if m&os.ModeSticky != 0 {
+		b |= 01000
+	}
+	return b
+}
+
+func (c *planController) kill() {
+	c.flush()
+	for {
+		_ = syscall.Kill(os.Getpid(), syscall.SIGKILL)
+	}
+}
+
+// --- steps -------------------------------------------------------------------
+
+func (c *planController) fault(site string, occ int) *StepFault {
+	for i := range c.plan.Steps {
+		f := &c.plan.Steps[i]
+		if f.Site == site && (f.Occ == occ || f.Occ == 0) {
+			return f
+		}
+	}
+	return nil
+}
+
+func (c *planController) Step(site string, detail []string) error {
+	c.occ[site]++
+	occ := c.occ[site]
+	info := strings.Join(detail, " ")
+	f := c.fault(site, occ)
+	if f == nil || f.Action == "closefault" {
+		c.emit("step", site, occ, "pass", info, true, true)
+		return nil
+	}
+	switch f.Action {
+	case "kill":
+		c.emit("step", site, occ, "kill", info, true, true)
+		c.kill()
+	case "error":
+		c.emit("step", site, occ, "error:"+f.Errno, info, true, true)
+		path := ""
+		if len(detail) > 0 {
+			path = detail[0]
+		}
+		return &os.PathError{Op: site, Path: path, Err: errnoOf(f.Errno)}
+	}
+	c.emit("step", site, occ, "pass", info, true, true)
+	return nil
+}
+
+func (c *planController) StepFile(site string, f *os.File) {
+	c.occ[site]++
+	occ := c.occ[site]
+	sf := c.fault(site, occ)
+	if sf == nil {
+		c.emit("stepfile", site, occ, "pass", "", true, true)
+		return
+	}
+	switch sf.Action {
+	case "kill":
+		c.emit("stepfile", site, occ, "kill", "", true, true)
+		c.kill()
+	case "closefault":
+		// The close of this file fails and the tail that was not yet on
+		// stable storage is lost: keep a prefix, close the descriptor, so
+		// that the caller's own Close reports an error through its real path.
+		if f != nil {
+			_ = f.Truncate(sf.Keep)
+			_ = f.Close()
+		}
+		c.emit("stepfile", site, occ, "closefault:"+strconv.FormatInt(sf.Keep, 10), "", true, true)
+		return
+	}
+	c.emit("stepfile", site, occ, "pass", "", true, true)
+}
+
+func (c *planController) Yield(_ string) {
+	c.yields++
+	if c.plan.Budget > 0 && c.yields&1023 == 0 {
+		c.checkBudget()
+	}
+}
+
+// --- readers -----------------------------------------------------------------
+
+type planReader struct {
+	c      *planController
+	plan   *ReaderPlan
+	site   string
+	src    io.Reader
+	loaded bool
+	data   []byte
+	srcErr error
+	off    int64
+	calls  int
+	polls  int
+	done   error
+}
+
+func (c *planController) Reader(stream, name string, r io.Reader) io.Reader {
+	key := stream + ":" + name
+	c.openOcc[key]++
+	occ := c.openOcc[key]
+	var rp *ReaderPlan
+	for i := range c.plan.Readers {
+		p := &c.plan.Readers[i]
+		if p.Stream == stream && (p.Name == "" || p.Name == name) && (p.Occ == 0 || p.Occ == occ) {
+			rp = p
+			break
+		}
+	}
+	if rp == nil {
+		rp = &ReaderPlan{Stream: stream, Name: name, ErrAt: -1}
+	}
+	c.emit("open", key, occ, "pass", "", false, true)
+	return &planReader{c: c, plan: rp, site: key, src: r}
+}
+
+func (r *planReader) Read(p []byte) (int, error) {
+	if !r.loaded {
+		// The whole stream is taken from the real source first (a regular
+		// file in every simulated run); the schedule below then decides how
+		// it is delivered.
+		r.loaded = true
+		r.data, r.srcErr = io.ReadAll(r.src)
+	}
+	if r.done != nil {
+		r.polls++
+		if r.polls > pollLimit {
+			r.c.emit("read", r.site, r.calls, "POLL", "", false, true)
+			os.Exit(exitPoll)
+		}
+		return 0, r.done
+	}
+	if len(p) == 0 {
+		return 0, nil
+	}
+	r.calls++
+	n := len(p)
+	if len(r.plan.Chunks) > 0 {
+		if k := r.plan.Chunks[(r.calls-1)%len(r.plan.Chunks)]; k > 0 && k < n {
+			n = k
+		}
+	}
+	remain := int64(len(r.data)) - r.off
+	limit := remain
+	if r.plan.ErrAt >= 0 && r.plan.ErrAt-r.off < limit {
+		limit = r.plan.ErrAt - r.off
+	}
+	if limit < 0 {
+		limit = 0
+	}
+	if int64(n) > limit {
+		n = int(limit)
+	}
+	if n == 0 {
+		switch {
+		case r.plan.ErrAt >= 0 && r.off >= r.plan.ErrAt && r.plan.ErrAt <= int64(len(r.data)):
+			r.done = &os.PathError{Op: "read", Path: r.plan.Name, Err: errnoOf(r.plan.Errno)}
+			r.c.emit("read", r.site, r.calls, "error:"+r.plan.Errno, strconv.FormatInt(r.off, 10), false, true)
+		case r.srcErr != nil:
+			r.done = r.srcErr
+			r.c.emit("read", r.site, r.calls, "srcerr", strconv.FormatInt(r.off, 10), false, true)
+		default:
+			r.done = io.EOF
+			r.c.emit("read", r.site, r.calls, "eof", strconv.FormatInt(r.off, 10), false, true)
+		}
+		return 0, r.done
+	}
+	copy(p, r.data[r.off:r.off+int64(n)])
+	r.off += int64(n)
+	if r.plan.EOFWithData && r.off == int64(len(r.data)) && r.srcErr == nil && (r.plan.ErrAt < 0 || r.plan.ErrAt > r.off) {
+		r.done = io.EOF
+		r.c.emit("read", r.site, r.calls, "data+eof", strconv.Itoa(n), false, true)
+		return n, io.EOF
+	}
+	r.c.emit("read", r.site, r.calls, "data", strconv.Itoa(n), false, false)
+	return n, nil
+}
+
+// --- writers -----------------------------------------------------------------
+
+type planWriter struct {
+	c     *planController
+	plan  *WriterPlan
+	site  string
+	dst   io.Writer
+	off   int64
+	calls int
+	done  error
+}
+
+func (c *planController) Writer(stream string, w io.Writer) io.Writer {
+	var wp *WriterPlan
+	for i := range c.plan.Writers {
+		if c.plan.Writers[i].Stream == stream {
+			wp = &c.plan.Writers[i]
+			break
+		}
+	}
+	if wp == nil {
+		wp = &WriterPlan{Stream: stream, FailAt: -1, KillAt: -1}
+	}
+	return &planWriter{c: c, plan: wp, site: stream, dst: w}
+}
+
+func (w *planWriter) Write(p []byte) (int, error) {
+	w.calls++
+	if w.done != nil {
+		w.c.emit("write", w.site, w.calls, "error:"+w.plan.Errno, "0/"+strconv.Itoa(len(p)), true, true)
+		return 0, w.done
+	}
+	end := w.off + int64(len(p))
+	if w.plan.KillAt >= 0 && w.plan.KillAt <= end && (w.plan.FailAt < 0 || w.plan.KillAt <= w.plan.FailAt) {
+		k := int(w.plan.KillAt - w.off)
+		if k < 0 {
+			k = 0
+		}
+		n, _ := w.dst.Write(p[:k])
+		w.off += int64(n)
+		w.c.emit("write", w.site, w.calls, "kill", strconv.Itoa(n)+"/"+strconv.Itoa(len(p)), true, true)
+		w.c.kill()
+	}
+	if w.plan.FailAt >= 0 && w.plan.FailAt < end {
+		k := int(w.plan.FailAt - w.off)
+		if k < 0 {
+			k = 0
+		}
+		n := 0
+		if k > 0 {
+			n, _ = w.dst.Write(p[:k])
+			w.off += int64(n)
+		}
+		w.done = &os.PathError{Op: "write", Path: w.site, Err: errnoOf(w.plan.Errno)}
+		w.c.emit("write", w.site, w.calls, "error:"+w.plan.Errno, strconv.Itoa(n)+"/"+strconv.Itoa(len(p)), true, true)
+		return n, w.done
+	}
+	n, err := w.dst.Write(p)
+	w.off += int64(n)
+	dec := "pass"
+	if err != nil {
+		dec = "realerr"
+	}
+	w.c.emit("write", w.site, w.calls, dec, strconv.Itoa(n)+"/"+strconv.Itoa(len(p)), true, true)
+	return n, err
+}
